@@ -144,6 +144,21 @@ Theorem C40_delay_never_changes : forall t evs c h, In h (run t c evs) ->
   c_delay (h_before h) = c_delay c /\ c_delay (h_after h) = c_delay c.
 Proof. exact delay_never_changes. Qed.
 
+(* the glue around the state machine (blueprint.rs update_role_assignment: three RoleAssignment.set
+   calls by the component itself, primary / recovery / confirmation, each needing SELF among the
+   updaters of that role, all or nothing) replaces the whole rule set or does nothing *)
+Theorem C40_update_role_assignment : forall t cur new,
+  update_role_assignment t cur new = if self_can_update t then Some new else None.
+Proof. exact update_role_assignment_eq. Qed.
+(* the role assignment stored after ANY call, by any caller at any time: the stored proposal's rule
+   set after a committed recovery confirmation (quick or timed), deny-all after a committed badge
+   withdrawal, the directly written rule if a direct role-assignment update were ever admitted (it is
+   not: C40_tables_ok), and otherwise exactly the role assignment before the call *)
+Theorem C40_roles_after_step : forall t c who now m,
+  c_roles (fst (step t c who now m)) =
+  if out_ok (snd (step t c who now m)) then expected_roles c m else c_roles c.
+Proof. exact roles_after_step. Qed.
+
 (* below the end of the i32 minute clock the timer test is exact *)
 Theorem C40_time_elapsed_exact : forall m now,
   i32_min <= m <= i32_max -> (time_elapsed now (m * 60) = true <-> m <= now).
@@ -172,6 +187,8 @@ Print Assumptions C40_stop_timed_blocks_timer.
 Print Assumptions C40_timed_confirm_any_caller_refuted.
 Print Assumptions C40_change_needs_two_except_known.
 Print Assumptions C40_time_elapsed_exact.
+Print Assumptions C40_update_role_assignment.
+Print Assumptions C40_roles_after_step.
 Print Assumptions C40_timed_confirm_clock_saturation_refuted.
 Print Assumptions C40_delay_elapsed_except_known.
 Print Assumptions C40_delay_never_changes.
